@@ -170,7 +170,7 @@ fn pprefix(rng: &mut Rng, ctx: &mut Ctx) {
     let comps = [None, Some(arrow2::io::ipc::write::Compression::LZ4), Some(arrow2::io::ipc::write::Compression::ZSTD)];
     let go = GenOpts { max_frames: 3, newer: false, force: None };
     for k0 in 0..ctx.n { let k = k0 + ctx.seed as usize;
-        let (r, tags) = loop { let kk = k * 5 + (rng.next() % 60) as usize; let (r, t) = gen_replay(rng, kk, &go); if !slots_of(&r.start_block).is_empty() && (k % 3 != 1 || (!r.frames.is_empty() && r.frames.last().unwrap().chars.iter().any(|c| c.2.is_some()))) { break (r, t); } };
+        let (r, tags) = loop { let kk = k * 5 + (rng.next() % 60) as usize; let (r, t) = gen_replay(rng, kk, &go); if !slots_of(&r.start_block).is_empty() && (k % 3 != 1 || (!r.frames.is_empty() && r.frames.last().unwrap().chars.iter().any(|c| c.2.is_some()))) && (k % 3 != 2 || (r.gecko.is_some() && r.end.is_some())) { break (r, t); } }; // the three archives of a quick run: any game / a longer game with frames / a game with Gecko list and Game End (every kind of member present)
         let mut r = r; if k % 4 == 3 { r.frames.clear(); }
         // one archive in three carries a longer game (a few dozen frames, so that every column buffer is more than a few bytes)
         if k % 3 == 1 && !r.frames.is_empty() { let want = 20 + (k % 7) * 4; let last = r.frames.last().unwrap().clone(); let mut id = last.id;
